@@ -10,6 +10,11 @@ def run(ctx):
         'the real subclasses are checked at real scale by the agreement and reference oracles',
         "'eat_chunk raised' and 'safety_check refused' are one verdict class (rejected)",
     ]
+    import os
+    if os.environ.get('VERIF_ONLY') == 'real':
+        real_stage(ctx)
+        fuzz_stage(ctx)
+        return wrapper_stage(ctx)
     # A. the engine, exhaustively in the small scope --------------------------
     engine_scaled.run_scaled(ctx, 'chain', 7 if quick else 8, [0, 1, 3, 4], 1500 if quick else 10000)
     engine_scaled.run_scaled(ctx, 'fixed', 5 if quick else 6, [0, 1, 3] if quick else [0, 1, 2, 3],
@@ -22,8 +27,121 @@ def run(ctx):
     for dev, expect in devs:
         r = engine_scaled.model_check(ctx, 'chain', 7, [0, 1, 3, 4], dev=dev, expect=expect)
         ctx.stage('tlc-deviation', dev=dev, violated=r.violated)
+    real_stage(ctx)
+    fuzz_stage(ctx)
+    wrapper_stage(ctx)
     ctx.cov['rule'] = ('every stream of length N over the alphabet x every composition of N into chunk sizes '
                        '(plus empty-chunk and query-interleaved variants) executed on the real engine and compared '
                        'with the TLC-exported reference verdict; non-trivial = streams whose reference is not a '
                        'plain non-matching rejection')
     ctx.cov['exhaustive'] = True
+
+
+def real_stage(ctx):
+    import random
+    from checks import real_images as ri
+    quick = ctx.quick
+    records = ri.export_layouts(ctx)
+    rnd = random.Random(ctx.seed)
+    caps = {'*': 150, 'vhdx': 220, 'vmdk': 260, 'gpt': 200, 'qcow2': 250} if quick else \
+           {'*': 400, 'vhdx': 900, 'vmdk': 900, 'gpt': 600, 'qcow2': 800}
+    chosen = ri.select(records, caps, rnd)
+    stats = {'layouts': 0, 'accepted': 0, 'classes': {}}
+
+    def handler(item, r, size):
+        rec = item
+        L = rec['L']
+        fmt = L['fmt']
+        stats['layouts'] += 1
+        key = '%s/%s' % (fmt, rec['ref']['safety'])
+        stats['classes'][key] = stats['classes'].get(key, 0) + 1
+        for kind, sched, a, b in r['problems']:
+            if kind == 'reference':
+                differs = [i for i in range(5) if a[i] != b[i]]
+                ctx.violation(
+                    {'kind': 'reference', 'fmt': fmt, 'differs': differs, 'ref_class': b[0], 'got_class': a[0]},
+                    {'layout': L, 'schedule': sched, 'observed': a, 'reference': b, 'size': size},
+                    '%s image %s: verdict %s under chunking %s, reference (function of the layout) %s' % (
+                        fmt, L, a, sched, b))
+            elif kind == 'agreement':
+                ctx.violation(
+                    {'kind': 'agreement', 'fmt': fmt},
+                    {'layout': L, 'verdicts': a, 'size': size},
+                    '%s image %s: verdict depends on the chunking: %s' % (fmt, L, a))
+            elif kind == 'unfaithful':
+                ctx.violation(
+                    {'kind': 'unfaithful', 'fmt': fmt, 'region': a[0][1]},
+                    {'layout': L, 'schedule': sched, 'observed': a},
+                    "%s image %s: region %r holds bytes that are not the stream's bytes at its offset (%s)" % (
+                        fmt, L, a[0][1], sched))
+            elif kind == 'exception':
+                ctx.violation(
+                    {'kind': 'exception', 'fmt': fmt, 'exc': a.split(':')[0]},
+                    {'layout': L, 'schedule': sched, 'exception': a},
+                    '%s image %s: eat_chunk raised %s under chunking %s' % (fmt, L, a, sched))
+            else:
+                raise MachineryError('builder produced %s for %s' % (a, L))
+    runs = ri.run_layouts(ctx, chosen, not quick, handler)
+    ctx.cov['evaluations'] += runs
+    ctx.cov['distinct_nontrivial'] += stats['layouts']
+    ctx.stage('real-scale-layouts', layouts=stats['layouts'], runs=runs, classes=stats['classes'])
+    ctx.sample({'real_scale_layout': chosen[0][1]})
+
+
+def fuzz_stage(ctx):
+    from checks import real_images as ri
+    quick = ctx.quick
+    count = 1200 if quick else 12000
+    stats = {'images': 0, 'kinds': {}, 'multi_class_known': 0}
+
+    def handler(i, label, fmt, size, r, extra):
+        stats['images'] += 1
+        stats['kinds'][label['kind']] = stats['kinds'].get(label['kind'], 0) + 1
+        for kind, sched, a, b in r['problems']:
+            sig = {'kind': kind, 'fmt': fmt}
+            sig.update(extra)
+            if kind == 'agreement':
+                ctx.violation(sig, {'case': label, 'case_index': i, 'inspector': fmt, 'verdicts': a, 'size': size},
+                              '%s inspector on %s (%d bytes): verdict depends on the chunking: %s' % (
+                                  fmt, label, size, a))
+            elif kind == 'unfaithful':
+                sig['region'] = a[0][1]
+                ctx.violation(sig, {'case': label, 'case_index': i, 'schedule': sched, 'observed': a},
+                              "%s inspector on %s: region %r holds bytes that are not the stream's (%s)" % (
+                                  fmt, label, a[0][1], sched))
+            elif kind == 'exception':
+                sig['exc'] = a.split(':')[0]
+                ctx.violation(sig, {'case': label, 'case_index': i, 'schedule': sched, 'exception': a},
+                              '%s inspector on %s: eat_chunk raised %s (%s)' % (fmt, label, a, sched))
+    runs = ri.run_fuzz(ctx, count, not quick, handler)
+    ctx.cov['evaluations'] += runs
+    ctx.stage('real-scale-agreement', cases=count, inspector_runs=stats['images'], runs=runs, kinds=stats['kinds'])
+
+
+def wrapper_stage(ctx):
+    from checks import real_images as ri
+    count = 800 if ctx.quick else 8000
+    st = {'multi': 0}
+
+    def handler(i, label, size, seen, errored, nclasses, vmode):
+        if nclasses > 1:
+            st['multi'] += 1
+            involved = set()
+            for out, _sz in seen:
+                names, one = out
+                if isinstance(names, list):
+                    involved |= set(names)
+                if isinstance(one, (list, tuple)):
+                    involved.add(one[0])
+            sig = {'kind': 'wrapper-agreement',
+                   'errored_involved': bool(involved & set(errored)),
+                   'vmdk_text_involved': 'vmdk' in involved and vmode[0] == 'text',
+                   'vmdk_short_footer_involved': 'vmdk' in involved and vmode[1]}
+            ctx.violation(
+                sig,
+                {'case': label, 'case_index': i, 'outcomes_by_read_size': seen, 'errored': errored, 'size': size},
+                'InspectWrapper on %s (%d bytes): conclusion depends on the read size: %s (inspectors that raised: %s)' % (
+                    label, size, seen, errored))
+    n = ri.run_wrapper_fuzz(ctx, count, handler)
+    ctx.cov['evaluations'] += n
+    ctx.stage('wrapper-agreement', cases=n, chunk_dependent=st['multi'])
